@@ -127,6 +127,19 @@ def run_case(a):
                 continue
             for (f, kind) in diff_kind(base, got):
                 viol.append(("C13 path-spelling-changes-%s file=%s" % (kind, f), "-p %s -o %s: %s differs from the run with absolute paths (%s)" % (sp_src, sp_out, f, kind), wit({"spelling": [sp_src, sp_out]})))
+        for k, (cwd_rel, sp_src, sp_out) in enumerate([("src", ".", "../out_sp4"), ("work/a/b", "../../../src", "../../../out_sp5")], start=4):
+            _os.makedirs(_os.path.join(root, cwd_rel), exist_ok=True)
+            r = common.run([cli, "tauri-typegen", "generate", "-p", sp_src, "-o", sp_out, "-v", mode], cwd=_os.path.join(root, cwd_rel), hash_seed=hs0)
+            stats["runs"] += 1
+            if r.timed_out:
+                continue
+            got = common.read_outputs(_os.path.join(root, "out_sp%d" % k)) if r.rc == 0 else None
+            if not got:
+                viol.append(("C13 path-spelling run-fails-or-writes-elsewhere spelling=%d" % k, "cwd %s, -p %s -o %s: rc=%s, nothing in the named directory; %s" % (
+                    cwd_rel, sp_src, sp_out, r.rc, (r.err + r.out)[-160:]), wit({"spelling": [cwd_rel, sp_src, sp_out]})))
+                continue
+            for (f, kind) in diff_kind(base, got):
+                viol.append(("C13 path-spelling-changes-%s file=%s" % (kind, f), "cwd %s, -p %s -o %s: %s differs from the run with absolute paths (%s)" % (cwd_rel, sp_src, sp_out, f, kind), wit({"spelling": [cwd_rel, sp_src, sp_out]})))
         # (2b) the other two entry paths: the library call generate_from_config and the build-script path are runs on the same
         #      sources and configuration as well
         if drv:
